@@ -173,6 +173,14 @@ def judge(part, probe, reg, query, lv, rv, tag, roundtrip=None):
                            "x times the target as stated in the reply is not the source value")
             return None
         part.count("stated_target_checked")
+        # the number as *printed* (exact numeral and approximation), times the target as stated, is the source value
+        problems = P.check_parts(np_, reg, quantity=lv.v, qdims=lv.d)
+        if problems:
+            kind, detail = problems[0]
+            part.violation({"kind": "reported_" + kind, "case": tag.split(":")[0]}, dict(wit, detail=detail),
+                           "the number printed in the reply times the target is not the source value")
+            return None
+        part.count("printed_number_checked")
     except (P.Unjudgeable, R.OutOfScope, ValueError):
         part.count("stated_target_unjudgeable")
     part.count("converted_ok")
@@ -222,8 +230,19 @@ def rand_coeff(rng):
     return "%d.%d" % (rng.randrange(0, 100), rng.randrange(1, 1000))
 
 
+SIMPLE_FAMILIES = [("ft", "inch"), ("yard", "ft"), ("mile", "yard"), ("hour", "min"), ("day", "hour"), ("week", "day"), ("m", "ft"),
+                   ("lb", "oz"), ("gallon", "quart"), ("km", "mile"), ("kg", "lb"), ("liter", "gallon"), ("acre", "m^2")]
+
+
 def gen_compound(rng, reg, classes, class_list):
     """(source text, target text) with the target conformable by construction most of the time."""
+    if rng.random() < 0.12:
+        # small numbers in familiar units: results that print as short fractions p/q, both signs
+        a, b = rng.choice(SIMPLE_FAMILIES)
+        if rng.random() < 0.5:
+            a, b = b, a
+        return ("%s%d %s" % (rng.choice(["", "", "-"]), rng.randrange(1, 30), a),
+                "%s%s" % (rng.choice(["", "%d " % rng.randrange(2, 40), "-%d " % rng.randrange(2, 40)]), b))
     nf = rng.randrange(1, 4)
     src, tgt = [], []
     for _ in range(nf):
@@ -263,6 +282,8 @@ def gen_compound(rng, reg, classes, class_list):
     c = rand_coeff(rng)
     if c:
         s = c + " " + s
+    if rng.random() < 0.2:
+        s = "-" + (s if c else "1 " + s)          # negative sources
     r = rng.random()
     if r < 0.25:
         t = "%s %s" % (rng.choice(["2", "12", "1|3", "0.5", "-3"]), t) if "/" not in t else t
